@@ -101,6 +101,11 @@ class Check:
         rc = 0
         if new:
             os.makedirs(REPLAYS, exist_ok=True)
+            summary = {}
+            for v in new:
+                c = v['fp'].get('clause') or v['fp'].get('rule') or v['fp'].get('kind') or '?'
+                summary[c] = summary.get(c, 0) + 1
+            print('violation classes:', json.dumps(summary, sort_keys=True))
             for v in new[:20]:
                 h = hashlib.sha1(json.dumps(v['fp'], sort_keys=True, default=str).encode()).hexdigest()[:10]
                 path = os.path.join(REPLAYS, f'{self.prop}-{h}.json')
